@@ -58,3 +58,37 @@ def deleteIfNotModified (g : Group) (snap : List GAlert) : Group :=
   { g with alerts := kept, destroyed := g.destroyed || kept.isEmpty }
 
 end AM.Group
+
+/-! ### the dispatcher's group map and its counter (`aggrGroupsNum`, group limit) -/
+namespace AM.Group
+
+/-- Which group keys are mapped: `live` groups, destroyed groups not yet collected
+    by maintenance (`dead`), and the counter the limit is checked against. -/
+structure GMap where
+  live  : List String := []
+  dead  : List String := []
+  count : Nat := 0
+  deriving Repr
+
+inductive GOp where
+  | ingest (k : String)     -- groupAlert for an alert of group k
+  | destroy (k : String)    -- a successful flush emptied group k
+  | maintain                -- doMaintenance: collect every destroyed group still mapped
+  deriving Repr
+
+/-- `groupAlert` / flush-destroy / `doMaintenance` on the map. Returns whether the
+    alert found a group (`false` = refused by the group limit). `limit = 0` is no limit. -/
+def gstep (limit : Nat) (m : GMap) : GOp → GMap × Bool
+  | .ingest k =>
+    if m.live.contains k then (m, true)                                    -- insert into the live group
+    else if limit > 0 ∧ m.count ≥ limit then (m, false)                    -- limit reached: alert dropped
+    else if m.dead.contains k then
+      ({ m with live := k :: m.live, dead := m.dead.erase k }, true)       -- CompareAndSwap over the destroyed group
+    else ({ m with live := k :: m.live, count := m.count + 1 }, true)      -- LoadOrStore of a new group
+  | .destroy k =>
+    if m.live.contains k then ({ m with live := m.live.erase k, dead := k :: m.dead }, true) else (m, true)
+  | .maintain => ({ m with dead := [], count := m.count - m.dead.length }, true)
+
+def grun (limit : Nat) (ops : List GOp) (m : GMap) : GMap := ops.foldl (fun m o => (gstep limit m o).1) m
+
+end AM.Group
